@@ -136,7 +136,7 @@ def run_case(c, R):
     for s in target.streams:
         s.add_constant_signal(f_start=f_tone, drift_rate=drift, level=c['level'] * (2.0 if cfg['digitize'] else 1.0))
     stem = os.path.join(tmp, f"c07_{c['_idx']}")
-    if c['_idx'] % 3 == 0:
+    if c['_idx'] % 2 == 0:
         # history: the same stem held an earlier recording of ANOTHER band, which the library has already read
         R.bucket('stem-re-recorded')
         decoy = dict(cfg, fch1=cfg['fch1'] + 3.3e8, asc=not cfg['asc'], nblocks=1, tones=[], seed=cfg['seed'] + 9)
